@@ -281,7 +281,6 @@ def run(repo: Repo, rep: Report, tier: str) -> None:
     from .c20 import fresh_generation_rule
 
     fresh_generation_rule(repo, rep, "C14.R9")
+    from .share import share_rules
 
-
-
-
+    share_rules(repo, rep, tier, "c15", {"C15.R5": "C14.R10"}, "a descriptor or accessor that keeps per-call state on itself is state shared by every object of every cstruct")
